@@ -160,35 +160,94 @@ def dft_axis(a, axis=-1, inverse=False, n=None):
     return numpy.moveaxis(out, -1, axis).view(SA)
 
 
+def _norm_scale(norm, n, inverse):
+    """numpy's norm= argument as a scale factor relative to the default ("backward") convention"""
+    if norm in (None, "backward"):
+        return None
+    if norm == "ortho":
+        return core.sym_sqrt(Sym(n)) if inverse else Sym(1) / core.sym_sqrt(Sym(n))
+    if norm == "forward":
+        return Sym(n) if inverse else Sym(1) / Sym(n)
+    raise ValueError("Invalid norm value %r" % (norm,))
+
+
+def _dft_n(a, axes, inverse, s=None, norm=None):
+    a = obj(a)
+    if axes is None:
+        axes = tuple(range(a.ndim)) if s is None else tuple(range(a.ndim - len(s), a.ndim))
+    axes = tuple(axes)
+    s = tuple(s) if s is not None else (None,) * len(axes)
+    out = a
+    tot = 1
+    for ax, n in zip(axes, s):
+        out = dft_axis(out, ax, inverse, n)
+        tot *= out.shape[ax]
+    sc = _norm_scale(norm, tot, inverse)
+    return out if sc is None else (out * sc).view(SA)
+
+
 class FFT:
     fftshift = staticmethod(numpy.fft.fftshift)
     ifftshift = staticmethod(numpy.fft.ifftshift)
 
     @staticmethod
     def fft(a, n=None, axis=-1, norm=None):
-        assert norm is None
-        return dft_axis(a, axis, False, n)
+        return _dft_n(a, (axis,), False, (n,), norm)
 
     @staticmethod
     def ifft(a, n=None, axis=-1, norm=None):
-        assert norm is None
-        return dft_axis(a, axis, True, n)
+        return _dft_n(a, (axis,), True, (n,), norm)
 
     @staticmethod
     def fft2(a, s=None, axes=(-2, -1), norm=None):
-        assert norm is None
-        s = s or (None, None)
-        return dft_axis(dft_axis(a, axes[0], False, s[0]), axes[1], False, s[1])
+        return _dft_n(a, axes, False, s, norm)
 
     @staticmethod
     def ifft2(a, s=None, axes=(-2, -1), norm=None):
-        assert norm is None
-        s = s or (None, None)
-        return dft_axis(dft_axis(a, axes[0], True, s[0]), axes[1], True, s[1])
+        return _dft_n(a, axes, True, s, norm)
+
+    @staticmethod
+    def fftn(a, s=None, axes=None, norm=None):
+        return _dft_n(a, axes, False, s, norm)
+
+    @staticmethod
+    def ifftn(a, s=None, axes=None, norm=None):
+        return _dft_n(a, axes, True, s, norm)
+
+    @staticmethod
+    def rfftn(a, s=None, axes=None, norm=None):
+        assert norm in (None, "backward")
+        a = obj(a)
+        if axes is None:
+            axes = tuple(range(a.ndim)) if s is None else tuple(range(a.ndim - len(s), a.ndim))
+        axes = tuple(axes)
+        s = tuple(s) if s is not None else (None,) * len(axes)
+        out = FFT.rfft(a, s[-1], axes[-1])
+        for ax, n in zip(axes[:-1], s[:-1]):
+            out = dft_axis(out, ax, False, n)
+        return out
+
+    @staticmethod
+    def irfftn(a, s=None, axes=None, norm=None):
+        assert norm in (None, "backward")
+        a = obj(a)
+        if axes is None:
+            axes = tuple(range(a.ndim)) if s is None else tuple(range(a.ndim - len(s), a.ndim))
+        axes = tuple(axes)
+        s = tuple(s) if s is not None else (None,) * len(axes)
+        out = a
+        for ax, n in zip(axes[:-1], s[:-1]):
+            out = dft_axis(out, ax, True, n)
+        return FFT.irfft(out, s[-1], axes[-1])
+
+    @staticmethod
+    def rfftfreq(n, d=1.0):
+        n = int(n)
+        return obj(numpy.array([Sym(v) / (Sym.lift(d) * n) for v in range(n // 2 + 1)], dtype=object))
 
     @staticmethod
     def rfft(a, n=None, axis=-1, norm=None):
-        assert norm is None
+        assert norm in (None, "backward")
         full = dft_axis(a, axis, False, n)
         N = full.shape[axis]
         sl = [slice(None)] * full.ndim
@@ -198,7 +257,7 @@ class FFT:
     @staticmethod
     def irfft(a, n=None, axis=-1, norm=None):
         """C2R: Hermitian extension of the half spectrum, real part (imag of DC/Nyquist dropped)"""
-        assert norm is None
+        assert norm in (None, "backward")
         a = numpy.moveaxis(obj(a), axis, -1)
         m = a.shape[-1]
         N = 2 * (m - 1) if n is None else int(n)
@@ -224,13 +283,13 @@ class FFT:
 
     @staticmethod
     def rfft2(a, s=None, axes=(-2, -1), norm=None):
-        assert norm is None
+        assert norm in (None, "backward")
         s = s or (None, None)
         return dft_axis(FFT.rfft(a, s[1], axes[1]), axes[0], False, s[0])
 
     @staticmethod
     def irfft2(a, s=None, axes=(-2, -1), norm=None):
-        assert norm is None
+        assert norm in (None, "backward")
         s = s or (None, None)
         return FFT.irfft(dft_axis(a, axes[0], True, s[0]), s[1], axes[1])
 
@@ -376,6 +435,9 @@ def sym_eigh(M, UPLO="L"):
     return w.view(SA), v.view(SA)
 
 
+CHOL_LOG = []
+
+
 class LinAlg:
     """stands for both numpy.linalg and scipy.linalg"""
     LinAlgError = numpy.linalg.LinAlgError
@@ -402,6 +464,55 @@ class LinAlg:
                     raise NotImplementedError("pinvh with a non-zero tolerance (truncated eigendecomposition is LAPACK): outside the encoding")
         St.notes.add("pinvh(tolerance 0) of a nonsingular symmetric matrix = inverse")
         return sym_inv(a)
+
+    @staticmethod
+    def det(a):
+        a = obj(a)
+        if a.ndim != 2:
+            raise NotImplementedError("det of a stack")
+        return det_and_adjugate(a)[0]
+
+    @staticmethod
+    def solve(a, b, *args, **kw):
+        St.notes.add("linalg.solve(a, b) of a nonsingular matrix = inverse(a) . b")
+        return sym_inv(a).dot(obj(b)).view(SA)
+
+    @staticmethod
+    def norm(x, ord=None, axis=None, keepdims=False):
+        if ord not in (None, 2, "fro") or (ord == 2 and axis is None and obj(x).ndim > 1):
+            raise NotImplementedError("linalg.norm with ord=%r" % (ord,))
+        x = obj(x)
+        sq = numpy.empty(x.shape, dtype=object)
+        for i in numpy.ndindex(*x.shape):
+            sq[i] = Sym.lift(x[i]).abs2()
+        tot = sq.sum(axis=axis, keepdims=keepdims) if x.ndim else sq[()]
+        return _map(core.sym_sqrt, tot)
+
+    @staticmethod
+    def cholesky(a, lower=None, overwrite_a=False, check_finite=True, upper=False):
+        """contract: L lower triangular with a positive diagonal and L L^T = a (numpy: lower; scipy default: upper)"""
+        a = obj(a)
+        n = a.shape[0]
+        k = len(CHOL_LOG)
+        L = numpy.empty((n, n), dtype=object)
+        axioms = []
+        for i in range(n):
+            for j in range(n):
+                L[i, j] = Sym(z3.Real("chol!%d[%d,%d]" % (k, i, j))) if j <= i else Sym(0)
+            axioms.append(L[i, i].re > 0)
+        for i in range(n):
+            for j in range(i + 1):
+                tot = Sym(0)
+                for l in range(j + 1):
+                    tot = tot + L[i, l] * L[j, l]
+                axioms.append(z(tot.re) == z(Sym.lift(a[i, j]).re))
+        for i in range(n):
+            for j in range(i + 1):
+                core.define(L[i, j].re, axioms)
+        CHOL_LOG.append((a, L))
+        St.notes.add("linalg.cholesky by contract: fresh lower-triangular L, positive diagonal, L L^T = a (a real symmetric positive definite)")
+        want_upper = upper if lower is None else (not lower)
+        return (L.T if want_upper else L).view(SA)
 
     @staticmethod
     def cho_factor(a, lower=False, overwrite_a=False, check_finite=True):
@@ -649,6 +760,50 @@ class MP:
 
 
 # ------------------------------------------------------------------ the numpy proxy
+class MathProxy:
+    """the math module for code that may hand it symbolic scalars: concrete arguments go to math itself"""
+
+    pi = math.pi
+    e = math.e
+    inf = math.inf
+    nan = math.nan
+    tau = math.tau
+
+    def __getattr__(self, k):
+        f = getattr(math, k)
+        if not callable(f):
+            return f
+
+        def wrapped(*a):
+            if any(isinstance(x, Sym) and not (x.isreal() and conc(x.re)) for x in a):
+                x = a[0]
+                if k in ("sqrt", "exp", "cos", "sin", "tan", "floor", "log10", "log", "log2", "cbrt", "radians", "degrees"):
+                    if k == "log" and len(a) == 2:
+                        return core.sym_log(a[0]) / core.sym_log(a[1])
+                    return getattr(x, k)()
+                if k == "ceil":
+                    return -((-x).floor())
+                if k == "fabs":
+                    return abs(x)
+                if k == "hypot" and len(a) == 2:
+                    return Sym.lift(a[0]).hypot(a[1])
+                if k == "pow":
+                    return Sym.lift(a[0]) ** a[1]
+                if k == "gamma":
+                    return sym_gamma(x)
+                if k == "isnan" or k == "isinf":
+                    return False
+                if k == "isfinite":
+                    return True
+                raise NotImplementedError("math.%s of a symbolic value" % k)
+            a = tuple((float(x.re) if isinstance(x, Sym) and k not in ("factorial", "comb", "gcd", "isqrt") else
+                       (int(x.re) if isinstance(x, Sym) else x)) for x in a)
+            r = f(*a)
+            return r
+        wrapped.__name__ = k
+        return wrapped
+
+
 def sym_float(x=0.0):
     if isinstance(x, Sym):
         if not x.isreal():
@@ -851,6 +1006,16 @@ class NP:
     def log10(self, x):
         return _map(core.sym_log10, x)
 
+    def log(self, x):
+        return _map(core.sym_log, x)
+
+    def float_power(self, a, b):
+        return _as_sa(numpy.power(obj(a), b))
+
+    def hypot(self, a, b):
+        a, b = obj(a), obj(b)
+        return _map(core.sym_sqrt, a * a + b * b)
+
     def cos(self, x):
         return _map(lambda e: e.cos(), x)
 
@@ -1041,6 +1206,23 @@ def symbolic(*modules, proxy=None, extra=None):
                     new[name] = MP()
                 elif hasattr(val, "py_func") and callable(getattr(val, "py_func")):
                     new[name] = val.py_func      # numba dispatcher -> its Python source
+                elif val is math:
+                    new[name] = MathProxy()
+                elif isinstance(val, types.ModuleType) and val.__name__ in ("scipy.fft", "scipy.fftpack", "numpy.fft"):
+                    new[name] = proxy.fft
+                elif callable(val) and not isinstance(val, type):
+                    # functions imported by name (from numpy import sqrt, from numpy.fft import fft2, ...)
+                    nm = getattr(val, "__name__", None)
+                    if nm and not nm.startswith("_"):
+                        if getattr(numpy, nm, None) is val:
+                            new[name] = getattr(proxy, nm)
+                        elif getattr(numpy.fft, nm, None) is val and hasattr(proxy.fft, nm):
+                            new[name] = getattr(proxy.fft, nm)
+                        elif (getattr(numpy.linalg, nm, None) is val or getattr(scipy.linalg, nm, None) is val) \
+                                and hasattr(proxy.linalg, nm):
+                            new[name] = getattr(proxy.linalg, nm)
+                        elif getattr(math, nm, None) is val and hasattr(MathProxy, nm):
+                            new[name] = getattr(MathProxy(), nm)
             new.setdefault("float", sym_float)
             new.setdefault("int", sym_int_builtin)
             new.setdefault("round", sym_round)
